@@ -403,6 +403,8 @@ class World(object):
                             world.note("h", name, world.cid_of(a[0]), canon(a[1]))
                         elif name == "on_connection_failed":
                             world.note("h", name, str(a[1]))
+                        elif name == "on_established":
+                            world.note("h", name)
                         else:
                             world.note("h", name, world.cid_of(a[0]))
                         return orig(self_, *a, **kw)
@@ -410,7 +412,7 @@ class World(object):
                     return method
                 for _n in ("on_update_error", "update_received", "keepalive_received", "send_open", "open_received",
                            "route_refresh_received", "notification_received", "on_connection_lost",
-                           "on_connection_failed"):
+                           "on_connection_failed", "on_established"):
                     setattr(ObservedDefaultHandler, _n, _wrap(_n))
                 self.handler = ObservedDefaultHandler()
             else:
